@@ -23,7 +23,6 @@ static void runOne(const std::vector<std::string>& script, const std::string& fa
     if (W->dl.hit()) { R.exhaustive = false; return; }
     W->crumb(scriptStr(script));
     ses::Transcript t = ses::runSession(script, 60);
-    if (t.timedOut) { t = ses::runSession(script, 300); R.count("reruns_after_timeout"); }   // re-run alone with a longer limit before calling it a hang
     ses::Analysis a = ses::analyse(t, true);
     R.count("states");
     long long infos = 0; bool pvSeen = false;
@@ -106,7 +105,12 @@ static void sessions(bool thorough) {
                 {"go ponder wtime 10000 btime 10000", "@sleep 10", "ponderhit", "@await bestmove"},
                 {"go ponder wtime 10000 btime 10000", "@sleep 10", "stop", "@await bestmove"},
             };
-            if (!fl.empty()) { v.push_back({"go depth 1 searchmoves " + fl[0], "@await bestmove"}); v.push_back({"go ponder wtime 10000 btime 10000 searchmoves " + fl.back(), "@sleep 10", "ponderhit", "@await bestmove"}); }
+            if (!fl.empty()) {
+                v.push_back({"go depth 1 searchmoves " + fl[0], "@await bestmove"}); v.push_back({"go ponder wtime 10000 btime 10000 searchmoves " + fl.back(), "@sleep 10", "ponderhit", "@await bestmove"});
+                // the move list in front of the other arguments (the order the UCI specification does not promise)
+                v.push_back({"go searchmoves " + fl.back() + " depth 2", "@await bestmove"});
+                v.push_back({"go searchmoves " + fl[0] + " ponder wtime 10000 btime 10000", "@sleep 10", "ponderhit", "@await bestmove"});
+            }
             return v;
         };
         for (auto& a : variants(fl1)) for (int other = 0; other < 2; other++) for (auto& b : variants(other ? fl2 : fl1)) {
